@@ -239,8 +239,9 @@ TEXT.update({
                  'recorded matches, and an answer must be backed by a pair read back from it); while the requests are scanned for a '
                  'stored key through find/position/any/all, a request is declared (non-)matching only by the answer of the user == '
                  '(ANSWER rule: a size pre-filter or a constant in the predicate is refuted). NOT decided in general: completeness '
-                 'for hand-written request loops (a present key always gets an answer; e.g. requests skipped through a bit mask '
-                 'that aliases for J > 64).',
+                 'for hand-written request loops (a present key always gets an answer). A word-sized bit set standing for slots '
+                 'or requests (`1 << i`) is refuted by the SHIFT rule: every shift amount must be provably below the width of the '
+                 'shifted value (otherwise the operation panics with overflow checks on and aliases modulo the width with them off).',
         'note': BASE,
     },
     'C14': {
